@@ -40,7 +40,8 @@ func init() {
 				}
 				js = append(js, sym.Job{Harness: "VH_C15_segmentation", Params: pm})
 			}
-			th := tier == "thorough"
+			th := true // the thorough bound costs under two minutes: run it on every change
+			_ = tier
 			maxReads := 3
 			if th {
 				maxReads = 4
@@ -64,8 +65,8 @@ func init() {
 			return js
 		},
 		Bounds: map[string]string{
-			"quick":    "streams of 1..2 request frames (kinds: FC3, FC6, FC16 with payload, unsupported function, out-of-range quantity; transaction id, unit, addresses, values symbolic) cut into up to 3 reads with EVERY cut position (case-split over all byte offsets); lock-step and pipelined (second request in the same read) arrivals",
-			"thorough": "single frames in up to 4 reads; streams of 3 frames in 2..3 reads",
+			"quick":    "streams of 1..3 request frames (kinds: FC3, FC6, FC16 with payload, unsupported function, out-of-range quantity; transaction id, unit, addresses, values symbolic); single frames cut into up to 4 reads, two frames into up to 3 reads, three frames into 2..3 reads, with EVERY cut position (case-split over all byte offsets); lock-step and pipelined (next request in the same read) arrivals",
+			"thorough": "same as quick (the bound is the claim)",
 		},
 		Outside:   []string{"more frames / reads than the bound", "the connection loop around the assembler (reads are handed to ReceiveRead one by one, as connection.handle does)"},
 		MinCovers: []string{"read", "stream-done"},
